@@ -40,6 +40,11 @@ def cases(tier, rng, run):
                         # a named expression whose own name is already bound (to something else): the value is
                         # still the arithmetic value of the expression, not the remembered binding
                         out.append(Case(f"EVAL\tn={e}\t{sc};n:977", f"exh{k}"))
+    # exponents that come out negative under the scope (`a-b` with a < b): the result is still an integer
+    for e in ("2^(a-b)", "b*2^(a-b)", "b/2^(a-b)", "isqrt(4^(a-b))", "1^(a-b)", "a^(a-b)", "(a-b)^(a-b)", "2^(a-b)^2", "max(2^(a-b),1)", "n=3*2^(a-b)+1", "2^(0-a)*b+b"):
+        for sc in ("a:1;b:2", "a:1;b:3", "a:2;b:4", "a:3;b:5", "a:0;b:1"):
+            out.append(Case(f"EVAL\t{e}\t{sc}", "negexp"))
+        out.append(Case(f"EVALSEQ\t{e}\ta:3;b:1|a:1;b:3|a:2;b:2", "negexp"))
     # an expression without any identifier is still an expression: as a dimension of an annotation it demands its arithmetic value
     # (not its first number) of the tensor — the path through TensorTypeBase / DLTypeContext, not only `evaluate`
     import itertools
@@ -147,6 +152,12 @@ def judge(case, impl_out, spec):
         if not case.meta["want"] and impl_out.startswith("accept"):
             return "an axis whose size is NOT the arithmetic value of its (identifier-free) expression is accepted"
         return None
+    if op in ("EVAL", "EVALSEQ"):
+        # whatever the scope, an evaluation that finishes yields an INTEGER (also when an exponent is negative: there the arithmetic of the
+        # grammar has no integer value and nothing more is demanded here — but a fraction is never the size of an axis)
+        for o in impl_out.split(" ## "):
+            if o.startswith("val ") and not re.fullmatch(r"-?\d+", o[4:]):
+                return f"the evaluation yields {o[4:]!r}, which is not an integer"
     if not spec.startswith("G"):
         return None
     if impl_out.startswith("err SyntaxError"):
